@@ -3,6 +3,7 @@ import Proofs.Machine.FileHeaders
 import Proofs.Machine.FileHeaders5
 import Proofs.Machine.MiscSource
 import Proofs.Machine.SubmoduleLogSource
+import Proofs.Machine.HunkRowsShape
 import Proofs.Headers.Paths
 import Proofs.Headers.HunkHeader
 /-!
@@ -615,5 +616,124 @@ example : (match runFrom {} {} modeOnlyHead with
           .tailAdditionalCases "SubmoduleLog"] m).isNone &&
       (SubmoduleLogSrc.exec {} subLogLine [.declineUnless "test_submodule_log", .paintBuffered, .pendingDiffName] m).isNone
     | .error _ => false) = true := by decide
+
+-- what a hunk-header row shows, over whole runs (session 4, T13) ------------------------------------------
+
+/-- **`hunk_header_row_shows_own_section`** (whole runs over `Machine.run`). For every configuration in which the file
+header is a row of its own (`FHC`, the scope of the section calculus) and every git diff that is a list of well-formed
+sections of the kinds git emits (`Sec2`, as in `one_file_header_per_section_any`), the rows of kind `hunkHeader` of the
+output are, in order, exactly `hhRowsOf2 cfg 0 secs`: for every `@@` line that a line of its hunk follows, the row(s)
+`emit_hunk_header_line` writes (`hhRowOf`) from **that line's own** parsed coordinates and code fragment, stamped with
+that line's input index, and the **two file names of the section the line stands in** (`secNames mi pl` = the paths on
+the section's `--- `/`rename from`/`copy from` line and on its `+++ `/`rename to`/`copy to` line). No row is built from
+the names of another section, none is lost or doubled; an `@@` line that no hunk line follows (directly followed by
+another `@@` line, by the next section or by the end of the input) gives no row, the `@@` line of a changed submodule
+(short form) gives none, that of an added / removed submodule gives one. Every `hunk-header-style` is covered (raw and
+omitted styles and an empty text give no row of this kind: `hhRowOf` then is `[]`); what the row's text is in terms of
+the style words: `hunk_header_row_text`, `hunk_header_row_text_file_line`. -/
+theorem hunk_header_row_shows_own_section {cfg : Cfg} (hc : FHC cfg) (secs : List Sec2) (w : ∀ s ∈ secs, s.WF)
+    {m : M} (e : run cfg (linesOf2 secs) = .ok m) :
+    m.out.filter (fun r => r.kind == .hunkHeader) = hhRowsOf2 cfg 0 secs :=
+  run_hunk_rows hc secs w e
+
+/-- **`hunk_header_row_text`**: hunk-header style neither raw nor omitted, no `--color-only`: the rows written for an
+`@@` line under the names `p` are one row — the text `hunkHeaderText` (model of
+`write_line_of_code_with_optional_path_and_line_number`) computes from the names, the parsed header and the style words,
+plus the blank of a box decoration — or none when that text is empty (`omit-code-fragment` without `file` and
+`line-number`). -/
+theorem hunk_header_row_text {cfg : Cfg} (hr : cfg.hunkHeaderStyle.isRaw = false)
+    (ho : cfg.hunkHeaderStyle.isOmitted = false) (hco : cfg.colorOnly = false) (p : Str × Str) (h : L) (i : Nat)
+    (hh : HunkHeader) (hp : parseHunkHeader h.text = some hh) :
+    hhRowOf cfg p h i =
+      (match hunkHeaderText cfg (namesOnly p) hh h.text with
+       | .ok (some t) => [{ kind := .hunkHeader, text := t ++ hhPad cfg.hunkHeaderStyle, src := i }]
+       | _ => []) :=
+  hhRowOf_text hr ho hco p h i hh hp
+
+/-- **`hunk_header_row_text_file_line`**: with `file` and `line-number` in `hunk-header-style`, the row of a two-way
+`@@ -a,b +c,d @@ frag` line under the names `p` reads `<hunk-label ><path>:<c>:<frag >` — the path is the plus-file name,
+or the minus-file name when the plus file is `/dev/null` (`shownPath`); `c` is the new-file start of this very line;
+`frag` is the code fragment git supplied (`hunk_header_fragment_intact`), tabs expanded, or nothing under
+`omit-code-fragment` (`fragBody`). -/
+theorem hunk_header_row_text_file_line {cfg : Cfg} (hr : cfg.hunkHeaderStyle.isRaw = false)
+    (ho : cfg.hunkHeaderStyle.isOmitted = false) (hco : cfg.colorOnly = false) (hf : cfg.hhFile = true)
+    (hn : cfg.hhLineNumber = true) (p : Str × Str) (h : L) (i : Nat) (hh : HunkHeader) (a b c d : Nat)
+    (hp : parseHunkHeader h.text = some hh) (hcoords : hh.coords = [(a, b), (c, d)]) :
+    hhRowOf cfg p h i =
+      [{ kind := .hunkHeader,
+         text := (if cfg.hunkLabel ≠ [] then cfg.hunkLabel ++ [' '] else []) ++
+           (shownPath p ++ ':' :: (toString c).toList ++ [':'] ++
+             (if HunkNames.fragBody cfg hh = [] then [' '] else [])) ++
+           Text.expand cfg.tab (HunkNames.fragBody cfg hh) ++ hhPad cfg.hunkHeaderStyle,
+         src := i }] :=
+  hhRowOf_file_line hr ho hco hf hn p h i hh a b c d hp hcoords
+
+/-- **`no_pending_header_no_hunk_header_row`** (the frame lemma behind the whole-run theorem, for every configuration
+and every line): a step of the machine from a state in which no hunk header is pending, outside a conflict region,
+writes no hunk-header row — whichever of the 18 handlers claims the line. -/
+theorem no_pending_header_no_hunk_header_row {cfg : Cfg} {m m' : M} {l : L} (e : step cfg m l = .ok m')
+    (hs : isMergeConflict m.st = false) (hq : isHunkHeader m.st = false) (g : Good m) : hhTL m' = hhTL m :=
+  step_rq e hs hq g
+
+/-- a file shown with path and line number, a label, a box -/
+def cfgFile : Cfg := { hhFile := true, hunkLabel := "§".toList, hunkHeaderStyle := { deco := .box } }
+
+def sTwoHunks : Sec2 := .file {
+  d := mkL "diff --git a/src/x.rs b/src/x.rs", noise := [mkL "index 1111111..2222222 100644"],
+  body := .named (mkL "--- a/src/x.rs") (mkL "+++ b/src/x.rs") none
+    (["@@ -1,2 +1,2 @@ fn f()", " ctx", "-old", "+new", "@@ -70,2 +90 @@\tfn g()", "-c", " d"].map mkL) }
+def sDeleted : Sec2 := .file {
+  d := mkL "diff --git a/gone b/gone", noise := [mkL "deleted file mode 100644", mkL "index 1111111..0000000"],
+  body := .named (mkL "--- a/gone") (mkL "+++ /dev/null") none (["@@ -5 +0,0 @@", "-z"].map mkL) }
+def sRenamedChanged : Sec2 := .file {
+  d := mkL "diff --git a/o.rs b/n.rs", noise := [mkL "similarity index 90%"],
+  body := .named (mkL "rename from o.rs") (mkL "rename to n.rs")
+    (some ([mkL "index 1111111..2222222 100644"], mkL "--- a/o.rs", mkL "+++ b/n.rs"))
+    (["@@ -3 +3 @@ impl T", "-a", "+b"].map mkL) }
+/-- an `@@` line directly followed by another one: no row for the first -/
+def sDangling : Sec2 := .file {
+  d := mkL "diff --git a/y b/y", noise := [],
+  body := .named (mkL "--- a/y") (mkL "+++ b/y") none (["@@ -1 +1 @@ lost", "@@ -8 +9 @@ kept", "+q", "@@ -20 +21 @@ end"].map mkL) }
+
+def shownSecs : List Sec2 :=
+  [sTwoHunks, sModeOnly, sDeleted, sSubLog, sRenamedChanged, sSubShort, sSubAdded, sDangling, sBinary, sModified]
+
+example : FHC cfgFile := ⟨rfl, rfl, rfl⟩
+example : ∀ s ∈ shownSecs, s.WF := wf_of_all (by decide)
+/-- what the theorem says for this input: each row carries the path of its own section (the minus file for the deleted
+file, the new name of the renamed file), its own start and fragment; nothing for the `@@ … lost` line, for the changed
+submodule, for the `@@ … end` line the next section follows -/
+example : (hhRowsOf2 cfgFile 0 shownSecs).map (fun r => (String.ofList r.text, r.src)) =
+    [("§ src/x.rs:1: fn f()  ", 4), ("§ src/x.rs:90:        fn g()  ", 8), ("§ gone:0:  ", 19), ("§ n.rs:3: impl T  ", 31),
+     ("§ new-sub:1:  ", 46), ("§ y:9: kept  ", 52), ("§ y:1:  ", 62)] := by decide
+/-- … and it is what the model's run writes -/
+example : (match run cfgFile (linesOf2 shownSecs) with
+    | .ok m => m.out.filter (fun r => r.kind == .hunkHeader) == hhRowsOf2 cfgFile 0 shownSecs
+    | .error _ => false) = true := by decide +kernel
+/-- the reading theorem on one of these lines -/
+example : hhRowOf cfgFile (secNames (mkL "--- a/gone") (mkL "+++ /dev/null")) (mkL "@@ -5 +0,0 @@") 19 =
+    [{ kind := .hunkHeader, text := "§ gone:0:  ".toList, src := 19 }] := by decide
+/-- other style words: no `file` (default), `omit-code-fragment`, no `line-number` and no fragment (no row at all) -/
+example : (hhRowsOf2 {} 0 [sTwoHunks]).map (fun r => String.ofList r.text) = ["1: fn f() ", "90:        fn g() "] := by decide
+example : (hhRowsOf2 { hhFile := true, hhFragment := false } 0 [sTwoHunks]).map (fun r => String.ofList r.text) =
+    ["src/x.rs:1: ", "src/x.rs:90: "] := by decide
+example : hhRowsOf2 { hhLineNumber := false, hhFragment := false } 0 [sTwoHunks] = [] := by decide
+example : hhRowsOf2 { hunkHeaderStyle := { isRaw := true } } 0 [sTwoHunks] = [] := by decide
+
+/-- `FHC` is the scope of the reused section calculus, not a limit of delta: with a raw or omitted file style the same
+hunk-header rows are written (model run; outside the theorem) -/
+example : (match run { cfgFile with fileStyle := { isRaw := true } } (linesOf2 shownSecs),
+      run { cfgFile with fileStyle := { isOmitted := true } } (linesOf2 shownSecs) with
+    | .ok m1, .ok m2 => m1.out.filter (fun r => r.kind == .hunkHeader) == hhRowsOf2 cfgFile 0 shownSecs &&
+        m2.out.filter (fun r => r.kind == .hunkHeader) == hhRowsOf2 cfgFile 0 shownSecs
+    | _, _ => false) = true := by decide +kernel
+
+/-- the section grammar is needed: a `Binary files … differ` line between an `@@` line and the first line of its hunk
+(not something git writes) is claimed by `handle_diff_header_misc_line`, which marks both names — the header row then
+shows `x (binary file)` instead of the section's path -/
+theorem binary_line_inside_hunk_changes_shown_path :
+    (match run cfgFile (["diff --git a/x b/x", "--- a/x", "+++ b/x", "@@ -1 +1 @@", "Binary files a/x and b/x differ", "+z"].map mkL) with
+     | .ok m => (m.out.filter (fun r => r.kind == .hunkHeader)).map (fun r => String.ofList r.text)
+     | .error _ => []) = ["§ x (binary file):1:  "] := by decide
 
 end C14
